@@ -348,7 +348,7 @@ func (st *State) load(addr string, t types.Type, root string) Val {
 	k := kindOf(t)
 	switch k {
 	case KInt, KBool, KAddr, KStr, KIface, KReal, KFunc:
-		h := st.heap(heapOfKind(k))
+		h := st.heap(heapFor(k, t))
 		term := st.define("ld", sortOfKind(k), "(select "+h+" "+addr+")")
 		v := Val{K: k, T: term, Ty: t}
 		if k == KInt {
@@ -407,7 +407,7 @@ func (st *State) store(addr string, v Val, t types.Type) {
 	k := kindOf(t)
 	switch k {
 	case KInt, KBool, KAddr, KStr, KIface, KReal, KFunc:
-		hn := heapOfKind(k)
+		hn := heapFor(k, t)
 		term := v.T
 		if k == KFunc && term == "" {
 			term = st.e.funcID(v)
@@ -436,7 +436,7 @@ func (st *State) assumeZeroAt(addr string, t types.Type) {
 	k := kindOf(t)
 	switch k {
 	case KInt, KBool, KAddr, KStr, KIface, KReal, KFunc:
-		st.assume("(= (select " + st.heap(heapOfKind(k)) + " " + addr + ") " + zeroTerm(k) + ")")
+		st.assume("(= (select " + st.heap(heapFor(k, t)) + " " + addr + ") " + zeroTerm(k) + ")")
 	case KSlice:
 		st.assume("(= (select " + st.heap("Ha") + " (fld " + addr + " 0)) null)")
 		for i := 1; i <= 3; i++ {
@@ -488,8 +488,8 @@ func leafPaths(addr string, t types.Type, f func(addr string, k Kind, t types.Ty
 // assumeZeroRange: forall i in [lo,hi): element i under base addr is zero.
 func (st *State) assumeZeroRange(base, lo, hi string, elemT types.Type) {
 	q := st.e.fresh("qi")
-	leafPaths("(elem "+base+" "+q+")", elemT, func(a string, k Kind, _ types.Type) {
-		h := st.heap(heapOfKind(k))
+	leafPaths("(elem "+base+" "+q+")", elemT, func(a string, k Kind, lt types.Type) {
+		h := st.heap(heapFor(k, lt))
 		st.assume("(forall ((" + q + " Int)) (! (=> (and (<= " + lo + " " + q + ") (< " + q + " " + hi + ")) (= (select " + h + " " + a + ") " + zeroTerm(k) + ")) :pattern ((select " + h + " " + a + "))))")
 	})
 }
